@@ -202,33 +202,44 @@ def block_ends_nullable(body, nested=False):
 
 
 def interfering_pair(body):
-    """An open-ended append to X directly followed by a plain delete / string assignment of X (any nesting level)."""
+    """The shapes in which the eager scheduling of a plain (not timing-strict) delete / assignment that follows an open-ended
+    statement is observable: (a) the open-ended statement appends to the same string, (b) a foreach's per-byte hook is running over
+    the open-ended statement (it sees every output after every byte)."""
     found = []
 
-    def scan(b):
+    def has_hook(actions):
+        return any(a[0] == "hook" for a in actions)
+
+    def scan(b, observed):
         prev = None
         for st_ in b:
-            if prev is not None and prev[0] == "append" and ir.match_summary(prev[2]).tail and st_[0] in ("delete", "assignstr") and st_[1] == prev[1]:
-                found.append(1)
-            if not ir.is_action(st_) or st_[0] in ("delete", "assignstr"):
-                prev = st_ if st_[0] == "append" else (prev if ir.is_action(st_) else None)
+            if prev is not None and st_[0] in ("delete", "assignstr", "assign"):
+                open_ended = bool(ir.stmt_summary(prev, []).tail)
+                if prev[0] == "append" and open_ended and st_[0] in ("delete", "assignstr") and st_[1] == prev[1]:
+                    found.append("a")
+                elif open_ended and (observed or (prev[0] == "foreach" and has_hook(prev[2]))):
+                    found.append("b")
+            if not ir.is_action(st_):
+                prev = st_
+            elif st_[0] not in ("delete", "assignstr", "assign"):
+                prev = None
             k = st_[0]
             subs = []
             if k == "loop":
-                subs = [st_[2]]
+                subs = [(st_[2], observed)]
             elif k == "optional":
-                subs = [st_[1]]
+                subs = [(st_[1], observed)]
             elif k == "case":
-                subs = [x[2] for x in st_[2]]
+                subs = [(x[2], observed) for x in st_[2]]
             elif k == "try":
-                subs = [st_[2], st_[3]]
+                subs = [(st_[2], observed), (st_[3], observed)]
             elif k == "foreach":
-                subs = [st_[1]]
+                subs = [(st_[1], observed or has_hook(st_[2]))]
             elif k == "if":
-                subs = [x[1] for x in st_[1]] + ([st_[2]] if st_[2] else [])
-            for sb in subs:
-                scan(sb)
-    scan(body)
+                subs = [(x[1], observed) for x in st_[1]] + ([(st_[2], observed)] if st_[2] else [])
+            for sb, ob in subs:
+                scan(sb, ob)
+    scan(body, False)
     return bool(found)
 
 
